@@ -151,6 +151,7 @@ package kv
 // loadRoot: fetch and decode one version object; a missing object keeps its
 // NoSuchKey classification through the wrapping.
 //@ func loadRoot
+//@   tolerates call:json.Unmarshal   // format fallback: a version object that is not JSON is read as gob; both failing is an error (post below)
 //@   requires persist != nil
 //@   modifies nothing
 //@   ensures imp(err == nil, result0 != nil && fresh(result0)) && imp(err != nil, result0 == nil)
@@ -161,6 +162,7 @@ package kv
 // loadRootFromAny: look the version up in each place in turn; (nil, nil, nil)
 // means every place answered NoSuchKey; any other failure is an error.
 //@ func loadRootFromAny
+//@   tolerates call:kv.loadRoot   // NoSuchKey in one place: the next place is tried (absent everywhere = (nil, nil, nil), which every caller tests); any other failure is returned (post@transport-error-is-an-error)
 //@   requires forall j int :: imp(0 <= j && j < len(persist), persist[j] != nil)
 //@   modifies nothing
 //@   ensures imp(err != nil, result0 == nil) && imp(result0 != nil, fresh(result0))
@@ -189,6 +191,8 @@ package kv
 // version must end up merged: anything unreadable is an error, never a skip.
 // No PUT/DELETE; only *maxVersion (and fresh objects) change.
 //@ func mergeRoots
+//@   tolerates call:crdt.Load   // a non-strict open skips a version that is not there yet (delayed root); strict opens never skip (loop invariant 4)
+//@   tolerates call:crdt.(Tree).Clone   // same: skipped only when skipUnreadable (post@strict)
 //@   requires maxVersion != nil
 //@   requires forall j int :: imp(0 <= j && j < len(persists), persists[j] != nil)
 //@   modifies *maxVersion
@@ -385,6 +389,7 @@ package kv
 //@ ghostvar historyHandle int
 //@ ghostvar historySnapshot int
 //@ func DeleteHistoricVersions
+//@   tolerates call:kv.loadRoot   // the optional clean-up of an EMPTY current version is skipped when its version object cannot be read; nothing is deleted then
 //@   requires dbOK(s)
 //@   modifies deletes, deleteFailures, historyDeletions, historyHandle, historySnapshot, vacLastChildOld
 //@   ghost historyDeletions = historyDeletions + 1
